@@ -16,7 +16,7 @@ from common import *
 from persist_common import *
 import extract_c05
 import c05 as C05
-from c05 import Search, Rec, replay_events, forked, persisted_paths, uses_tree, translator_obligations, prove_with_gen
+from c05 import Search, Rec, replay_events, forked, persisted_paths, uses_tree, translator_obligations, prove_with_gen, finish_dimensions
 
 F5 = "F5:var_config-sim-pointer-memcmp"
 K_PJH = "C05-N3:whfast-p_jh-uninitialised-bytes-compared"
@@ -57,6 +57,7 @@ class Search17(Search):
         has_var = bool(cfg.get("variational") or cfg.get("megno"))
         # 64-bit counters beyond 2^32 (a field written with 4 bytes would come back truncated and still compare equal)
         self.poke(a, "collisions_log_n", 5 * 2 ** 32 + 7, ctypes.c_int64)
+        self.hist["dim|scale:counters_ge_2^32"] = self.hist.get("dim|scale:counters_ge_2^32", 0) + 1
         if not cfg.get("megno"):
             self.poke(a, "megno_n", 3 * 2 ** 32 + 11, ctypes.c_int64)
         R.save(a)                      # the first save initialises the integrator (reb_integrator_init) - not part of the claim
@@ -65,6 +66,7 @@ class Search17(Search):
         attach(cp, cfg)
         v1 = R.persisted_view(a, drop_wall=False)
         c.count((key, path), nontrivial=cfg["save_after"] > 0 or bool(cfg.get("o")))
+        self.tag(cfg, path, "copy")
         self.hist["path_" + path] = self.hist.get("path_" + path, 0) + 1
         if v0 != v1:
             c.violation("copy-touches-source", "copying (%s) changed the source: %s" % (path, R.first_difference(v0, v1)), {"cfg": cfg, "path": path})
@@ -136,9 +138,10 @@ class Search17(Search):
             return
         ne = R.diff(a, cp)
         self.eq_consistency(a, cp, ne, cfg, "after evolving both")
-        cp.particles[0].x += 1e-3       # and a pair that certainly differs
-        self.eq_consistency(a, cp, R.diff(a, cp), cfg, "after editing the copy")
-        cp.particles[0].x -= 1e-3
+        if cp.N > 0:
+            cp.particles[0].x += 1e-3       # and a pair that certainly differs
+            self.eq_consistency(a, cp, R.diff(a, cp), cfg, "after editing the copy")
+            cp.particles[0].x -= 1e-3
         raw_equal = True
         if ne and has_var:
             c.violation(F5, "source and copy compare unequal after evolving identically (variational configuration)", {"cfg": cfg, "path": path})
@@ -396,6 +399,33 @@ def extra_field_cases(c, S, info, R, rb):
                             {"cfg": cfg, "edit": "reb_simulation_add_display_settings on the copy", "direction": tag})
 
 
+def callback_side_cases(c, S, info, R, rb):
+    """callbacks set on one side only: the function-pointer flag is a persisted field, so the simulations compare
+    unequal until the user re-attaches the callbacks on the copy; afterwards they must compare equal"""
+    n = 0
+    for cbs in (["heartbeat"], ["additional_forces"], ["post"], ["pre"]):
+        for path in ("copy", "pickle"):
+            cfg = {"integrator": "whfast", "o": {"safe_mode": 0}, "system": "planets", "save_after": 2, "cb": cbs}
+            a = build_sim(rb, cfg); advance(a, 2); R.save(a)
+            cp, _ = S.restore(a, path)
+            n += 1
+            c.count(("callbacks-one-side", cbs[0], path))
+            before = R.diff(a, cp)
+            flagged = {"heartbeat": "heartbeat", "additional_forces": "additional_forces", "post": "post_timestep_modifications",
+                       "pre": "pre_timestep_modifications"}[cbs[0]] in info["fp_members"]
+            if before != (1 if flagged else 0):
+                c.violation("callbacks-one-side:" + cbs[0], "source has the callback %s, its %s has none: reb_simulation_diff = %d but the function-pointer flag field %s" % (
+                    cbs[0], path, before, "differs" if flagged else "is equal"), {"cfg": cfg, "path": path})
+            if before:
+                c.violation("C17-N2:copy-unequal-until-callbacks-reattached",
+                            "a simulation with a callback set (%s) compares unequal to its own fresh %s: the persisted function-pointer flag differs until the user re-attaches the callback" % (cbs[0], path),
+                            {"cfg": cfg, "path": path})
+            attach(cp, cfg)
+            if R.diff(a, cp) != 0 or not (a == cp):
+                c.violation("callbacks-reattached-unequal:" + cbs[0], "after re-attaching the callback the %s still compares unequal" % path, {"cfg": cfg, "path": path})
+    return n
+
+
 def correspondence(c, exe, rb, info, R, cfgs, rng):
     """model `compare` vs real reb_binary_diff on pairs of real streams"""
     lines, meta = [], []
@@ -507,6 +537,15 @@ def run(c):
     nan_cases(c, S, info, R, rb)
     special_value_sweep(c, S, info, R, rb)
     extra_field_cases(c, S, info, R, rb)
+    ncb = callback_side_cases(c, S, info, R, rb)
+    extra = {"callbacks:set_on_one_side_only": ncb,
+             "values:special_doubles_every_member": c.cov.get("special_value_sweep", {}).get("cases", 0),
+             "values:bit_in_every_byte_of_every_member": c.cov.get("perturbation_sweep", {}).get("byte_perturbations", 0),
+             "values:element_members_pointers_padding": c.cov.get("element_sweep_cases", 0),
+             "values:nan_and_signed_zero_particles": 2,
+             "fields:present_on_one_side_only": 4,
+             "tie:compare_pairs": c.cov.get("compare_pairs", 0)}
+    finish_dimensions(c, S, extra, DIMS_COMMON + ["kind:copy", "scale:counters_ge_2^32"] + list(extra))
     c.cov["histogram"] = S.hist
     c.sample({"cfg": cfgs[5], "path": "copy"})
     c.sample({"cfg": cfgs[len(cfgs) // 3], "path": "pickle"})
